@@ -87,6 +87,8 @@ type xmlParser struct {
 	nsPos      int
 	attrs      []XmlAttribute
 	attrPos    int
+	peeked     xml.Token
+	peekedErr  error
 }
 
 func (x *xmlParser) Pull() (node.Node, bool, error) {
@@ -144,7 +146,7 @@ func (x *xmlParser) Pull() (node.Node, bool, error) {
 // Reads the next token of the document that belongs to the tree.
 func (x *xmlParser) nextToken() (xml.Token, error) {
 	for {
-		tok, err := x.xmlReader.Token()
+		tok, err := x.readToken()
 
 		if err != nil {
 			return nil, err
@@ -155,7 +157,45 @@ func (x *xmlParser) nextToken() (xml.Token, error) {
 			continue
 		}
 
+		if text, ok := tok.(xml.CharData); ok {
+			return x.mergeCharData(text), nil
+		}
+
 		return tok, nil
+	}
+}
+
+// Returns the token that mergeCharData read ahead, or else the next token of the decoder.
+func (x *xmlParser) readToken() (xml.Token, error) {
+	if x.peeked != nil || x.peekedErr != nil {
+		tok, err := x.peeked, x.peekedErr
+		x.peeked, x.peekedErr = nil, nil
+		return tok, err
+	}
+
+	return x.xmlReader.Token()
+}
+
+// Character data next to each other (text around a CDATA section) forms a single text node.
+func (x *xmlParser) mergeCharData(text xml.CharData) xml.CharData {
+	text = text.Copy()
+
+	for {
+		tok, err := x.xmlReader.Token()
+
+		if err != nil {
+			x.peekedErr = err
+			return text
+		}
+
+		next, ok := tok.(xml.CharData)
+
+		if !ok {
+			x.peeked = xml.CopyToken(tok)
+			return text
+		}
+
+		text = append(text, next...)
 	}
 }
 
